@@ -221,7 +221,7 @@ pub fn run(ctx: &Arc<Ctx>) {
     }
     ctx.sample(serde_json::to_value(&cases[5]).unwrap());
     ctx.sample(serde_json::to_value(&cases[cases.len() - 1]).unwrap());
-    cases.par_iter().for_each(|c| eval(ctx, c));
+    run_cases(ctx, &cases, 64, eval);
 }
 
 /// the reference modes are pinned by OpenSSL-generated vectors (corpus/sm4_modes.json)
